@@ -220,6 +220,11 @@ func (l *Gpos4_1) encode() []byte {
 			}
 		}
 	}
+	// The last anchor of each array has the largest offset.
+	checkOffset16(baseArrayOffset)
+	checkOffset16(2 + (4+6)*markCount - 6)
+	checkOffset16(total - baseArrayOffset - 6)
+
 	res := make([]byte, 0, total)
 
 	res = append(res,
